@@ -107,6 +107,8 @@ def as_sym_seq(interp: Interp, st: St, x: V):
             length = T.F_len(it.seq)
         if not (z3.is_int_value(it.pos) and it.pos.as_long() == 0):
             length = length - it.pos
+            if getattr(it, "clamp", False):
+                length = z3.If(length < 0, 0, length)
         pos = it.pos
 
         def elem(s2, i, it=it, pos=pos):
